@@ -348,7 +348,7 @@ theorem asciiK_step {o : Oracle} (hnd : NoDest o) {f f' : F} (op : FOp) (k : f.c
       by show f.received ++ (f.s.sock ++ b) = f.sent ++ b; rw [← List.append_assoc, k.sentEq]⟩
   | read =>
     simp only [fStep] at h
-    cases hg : getUserData o f.s with
+    cases hg : getUserDataH o f.s with
     | error e => rw [hg] at h; cases h
     | ok res =>
       obtain ⟨s', evs⟩ := res
@@ -356,6 +356,7 @@ theorem asciiK_step {o : Oracle} (hnd : NoDest o) {f f' : F} (op : FOp) (k : f.c
       injection h with h; subst h
       simp only [Bool.and_eq_true] at hc'
       have k := k hc'.1
+      rw [getUserDataH_other o (by rw [k.port]; decide)] at hg
       have hok : f.s.tend - f.s.tstart + asciiReserve + 1 ≤ MAXT := by
         have := hc'.2; simp only [readOK, k.port, decide_eq_true_eq] at this; exact this
       obtain ⟨s2, evs2, hg2, i2, p2, d2, fin2, n, hs', hl⟩ := ascii_read_exact hnd k.inv k.port hok
